@@ -13,6 +13,7 @@ import (
 	"encoding/json"
 	"errors"
 	"fmt"
+	"hash/fnv"
 	"io"
 	"math"
 	"math/big"
@@ -26,6 +27,7 @@ import (
 	"sort"
 	"strconv"
 	"strings"
+	"sync"
 	"time"
 
 	ht "github.com/ogen-go/ogen/http"
@@ -34,7 +36,7 @@ import (
 )
 
 type typedPkg struct {
-	New      func(prefix string, cb func(ctx context.Context, op string, args []any, res any) error, ne func(ctx context.Context, err error, res any), fill func(context.Context, any), saw func(context.Context, any), hc ht.Client, eh func(context.Context, http.ResponseWriter, *http.Request, error), nf http.HandlerFunc, mna func(http.ResponseWriter, *http.Request, string), mws ...middleware.Middleware) (http.Handler, any, any, error)
+	New      func(prefix string, cb func(ctx context.Context, op string, args []any, res any) error, ne func(ctx context.Context, err error, res any), fill func(context.Context, any), saw func(context.Context, any) error, hc ht.Client, eh func(context.Context, http.ResponseWriter, *http.Request, error), nf http.HandlerFunc, mna func(http.ResponseWriter, *http.Request, string), mws ...middleware.Middleware) (http.Handler, any, any, error)
 	Impls    map[string][]reflect.Type
 	Ops      []string
 	Webhooks map[string]string // webhook operation -> webhook name
@@ -366,6 +368,9 @@ func diffIn(path string, a, b *Node, defaults map[string]string, out *[]string, 
 		// the variant, whatever the member holds. Tolerated when it arrives as the same text every time.
 		defaults["discriminator "+variant+" "+path] = b.V
 		return
+	}
+	if a.T == "int" && b.T == "int" && a.V == "0" && b.V == "200" && strings.HasSuffix(path, ".StatusCode") {
+		return // a status code left unset means 200
 	}
 	if a.T == "unset" && b.T != "unset" {
 		if defaults != nil {
@@ -1070,6 +1075,19 @@ func (g *vgen) response(t reflect.Type) (reflect.Value, bool) {
 					return reflect.Value{}, false
 				}
 				f.SetInt(int64(m[0]-'0')*100 + 99)
+				if m[0] == '2' && g.r.intn(3) == 0 {
+					// left unset: the server answers 200, and that is what arrives - unless a sibling variant may be
+					// the one for 200 itself (a variant whose name carries no class is one for an exact code)
+					only := true
+					for _, n := range names {
+						if n != own && nxx.FindString(n) == "" {
+							only = false
+						}
+					}
+					if only {
+						f.SetInt(0)
+					}
+				}
 			} else {
 				taken := map[byte]bool{}
 				for _, n := range names {
@@ -1155,7 +1173,35 @@ func typedSide(ctx context.Context) (*srvInfo, *TypedSide) {
 }
 
 // typedHandler is the one callback behind every Handler method of a corpus package.
-func typedHandler(impls map[string][]reflect.Type) func(ctx context.Context, op string, args []any, res any) error {
+//
+// shared: the handler answers from a small set of response objects it made once (one per operation and class of
+// call) and hands the same object to every request of that class - what an application with canned answers does. The
+// second result compares those objects, after everything has finished, with what they were when they were made.
+func typedHandler(impls map[string][]reflect.Type, shared bool) (func(ctx context.Context, op string, args []any, res any) error, func() string) {
+	type canned struct {
+		v    reflect.Value
+		was  *Node
+		name string
+	}
+	var mu sync.Mutex
+	cache := map[string]*canned{}
+	check := func() string {
+		mu.Lock()
+		defer mu.Unlock()
+		var keys []string
+		for k := range cache {
+			keys = append(keys, k)
+		}
+		sort.Strings(keys)
+		for _, k := range keys {
+			c := cache[k]
+			// (no relaxation here: the object is the application's, not a value that travelled)
+			if now := snap(c.v, false, 0); now.String() != c.was.String() {
+				return "the response object the handler keeps for " + k + " was " + clipS(c.was.String(), 300) + " and is now " + clipS(now.String(), 300)
+			}
+		}
+		return ""
+	}
 	return func(ctx context.Context, op string, args []any, res any) error {
 		si, ts := typedSide(ctx)
 		if si == nil {
@@ -1178,7 +1224,29 @@ func typedHandler(impls map[string][]reflect.Type) func(ctx context.Context, op 
 		c := si.Call.Rec.Call
 		g := &vgen{r: vrng{s: c.V ^ respSalt}, edge: c.Edge, impls: impls, small: c.V&1 == 0, op: op, edgeText: c.Edge && c.V&2 != 0}
 		rv := reflect.ValueOf(res).Elem()
-		v, ok := g.response(rv.Type())
+		var v reflect.Value
+		var ok bool
+		if shared {
+			// the answer depends on the operation and on the class of the call only (so that it is the same alone and
+			// among others), and every request of the class gets the same object
+			key := fmt.Sprintf("%s/%d", op, c.V%3)
+			mu.Lock()
+			cn := cache[key]
+			if cn == nil {
+				h := fnv.New64a()
+				h.Write([]byte(key))
+				g = &vgen{r: vrng{s: h.Sum64() ^ respSalt}, impls: impls, small: h.Sum64()&1 == 0, op: op}
+				if v, ok = g.response(rv.Type()); ok && !holdsReader(snap(v, false, 0)) {
+					cn = &canned{v: v, was: snap(v, false, 0), name: key}
+					cache[key] = cn
+				}
+			} else {
+				v, ok = cn.v, true
+			}
+			mu.Unlock()
+		} else {
+			v, ok = g.response(rv.Type())
+		}
 		if !ok {
 			return errors.New("sim: no response variant can be made")
 		}
@@ -1192,7 +1260,23 @@ func typedHandler(impls map[string][]reflect.Type) func(ctx context.Context, op 
 		}
 		si.St.MaybeYield()
 		return nil
+	}, check
+}
+
+// holdsReader: the tree contains a stream (a stream can be read once: such an answer cannot be shared).
+func holdsReader(n *Node) bool {
+	if n == nil {
+		return false
 	}
+	if n.T == "reader" || n.T == "file" {
+		return true
+	}
+	for _, c := range n.C {
+		if holdsReader(c) {
+			return true
+		}
+	}
+	return false
 }
 
 // typedNewError builds the common error response the way ogen's default error handler picks its status.
@@ -1209,7 +1293,15 @@ func typedNewError(ctx context.Context, err error, res any) {
 	}
 	if sv.Kind() == reflect.Struct {
 		if f := sv.FieldByName("StatusCode"); f.IsValid() && f.Kind() == reflect.Int && f.CanSet() {
-			f.SetInt(int64(ogenerrors.ErrorCode(err)))
+			code := ogenerrors.ErrorCode(err)
+			if si := srvFrom(ctx); si != nil && si.Call != nil && si.Call.Rec != nil {
+				if v := si.Call.Rec.Call.V; v%5 == 0 || v%7 == 0 {
+					// the application's own mapping for a class of calls: whatever went wrong, "the backend is down"
+					code = http.StatusServiceUnavailable
+				}
+				si.Side.NewErrorStatus = code
+			}
+			f.SetInt(int64(code))
 		}
 	}
 }
@@ -1258,14 +1350,20 @@ func typedFill(ctx context.Context, p any) {
 }
 
 // typedSecSaw is called by the accept-all security handler with the credential the server extracted.
-func typedSecSaw(ctx context.Context, cred any) {
+func typedSecSaw(ctx context.Context, cred any) error {
 	si, ts := typedSide(ctx)
 	if si == nil {
-		return
+		return nil
 	}
 	si.Side.SecurityCalls++
 	ts.creds = append(ts.creds, snap(reflect.ValueOf(cred), false, 0))
 	si.St.MaybeYield()
+	if si.Call.Rec.Call.V%7 == 0 {
+		// for a class of calls the application cannot check the credential at all
+		si.Side.SecurityRefused = true
+		return errors.New("sim: the credential store does not answer")
+	}
+	return nil
 }
 
 // foreignCredential: a text of the form tok-<task>-<op>-<i> that names another call.
